@@ -475,6 +475,38 @@ def run(ctx, prog, res):
             r5.ok({"type": short(tid), "values": M.stats[tid]["models"], "collisions": len(cl)})
     r5.floor(18)
 
+    # R6 -------------------------------------------------------------------------------------
+    r6 = res.rule("C06.R6", "a dated range prints each of its two dates and offsets whole, through their own printers: the end is never abbreviated to a part of itself (`Jan 20-10`). The abbreviated forms the grammar accepts for an end are read back *relative to the start* by the builder (a smaller day number means the next month, a month without year inherits one), so a printer that abbreviates changes what is read back even though the text is a sentence of the grammar")
+    MR = "opening_hours_syntax::rules::day::MonthdayRange"
+    DATE_T = "opening_hours_syntax::rules::day::Date"
+    OFF_T = "opening_hours_syntax::rules::day::DateOffset"
+    mfn = [f for k, f in prog.fns.items() if k == "<%s as core::fmt::Display>::fmt" % MR]
+    if len(mfn) != 1:
+        r6.anchor_missing("Display for MonthdayRange")
+    else:
+        try:
+            mpaths = symprint.SymPrinter(prog).run_fmt(mfn[0], MR)
+        except symprint.Unmodelled as ex:
+            mpaths = None
+            r6.fail("C06.R6:unmodelled", "Display for MonthdayRange is outside the modelled subset (%s): not decided, failing closed" % ex, lib.where_of(mfn[0]))
+        n_holes = 0
+        for pth in mpaths or []:
+            if not any(c[0][0] == "is" and c[0][2] == "Date" and c[1] for c in pth.pc if isinstance(c, tuple) and isinstance(c[0], tuple)):
+                continue
+            for piece in pth.out:
+                if not (isinstance(piece, tuple) and piece and piece[0] == "hole"):
+                    continue
+                src = repr(piece[2])
+                under = [side for side in ("start", "end") if "'%s')" % side in src]
+                if not under:
+                    continue
+                n_holes += 1
+                hty = piece[3] if len(piece) > 3 else None
+                whole = hty in (DATE_T, OFF_T)
+                r6.check(whole, {"printed": "%s.%s" % (under[0], "date" if hty == DATE_T else "offset" if hty == OFF_T else "?"), "through": (hty or "?").split("::")[-1]}, "C06.R6:%s:%s" % (under[0], (hty or "?").split("::")[-1]),
+                         "Display for MonthdayRange prints a part of the %s date on its own (a value of type %s taken from %s): abbreviated ends are read back relative to the start (`Jan 20-10` is Jan 20 to Feb 10), so the range `Jan 20-Jan 10` does not survive printing" % (under[0], hty, src[:120]), lib.where_of(mfn[0]))
+        r6.check(n_holes >= 4 or mpaths is None, {"holes_under_start_or_end": n_holes}, "C06.R6:FLOOR", "FLOOR: only %d printed parts of a dated range found" % n_holes, lib.where_of(mfn[0]))
+
     # R4 -------------------------------------------------------------------------------------
     r4 = res.rule("C06.R4", "the Python __str__ is the core's Display of the wrapped expression and __repr__ wraps exactly that text (shared with C12.R10)")
     if lib.PY not in prog.crates:
